@@ -260,7 +260,7 @@ def run(ctx):
             extra.append((j[0], j[1], j[2], 1 + (k // 3) % 3))
     jobs += extra
     from .. import docspace as D
-    ctx.pmap(_job, [[j] for j in D.long_kern_docs(seed, reps=(3, 6)) + [(['**kern', '**kern'], ['GIANT', '1500', 'nocomments'], seed), (['**kern'], ['GIANT', '1200', 'nocomments'], seed + 1)]] + list(X.chunks(jobs, 120)), chunksize=1)
+    ctx.pmap(_job, [[j] for j in D.long_kern_docs(seed, reps=(3, 6)) + [(['**kern', '**kern'], ['GIANT', '1500', 'nocomments'], seed), (['**kern'], ['GIANT', '1200', 'nocomments'], seed + 1), (['**kern', '**kern'], ['SIGNATURES'], seed)]] + list(X.chunks(jobs, 120)), chunksize=1)
     ctx.extra['cases_per_class'] = {k[6:]: v for k, v in ctx.n.items() if k.startswith('class:')}
 
 
